@@ -179,6 +179,17 @@ func ruleImageMethods(c *Ctx) {
 			saved := n.Ctx
 			n.Ctx = s.Path
 			cases := n.valueCases(s.Fn, nil, call.Common().Args[0], 0)
+			// a kind chosen together with the bars: alternatives on which the bars are nil never reach
+			// the constructor (the nil result is rejected before)
+			if _, isPhi := call.Common().Args[0].(*ssa.Phi); isPhi {
+				cases = nil
+				for _, jc := range jointCases(n, s.Fn, s.Fn.Blocks[0], []ssa.Value{call.Common().Args[0], call.Common().Args[2]}, call.Block(), cTrue, 0) {
+					if isNilConst(jc.vals[1]) {
+						continue
+					}
+					cases = append(cases, valCase{n.Norm(jc.vals[0]), jc.cond})
+				}
+			}
 			n.Ctx = saved
 			for _, cs := range cases {
 				v := cs.val.asAtom()
